@@ -26,8 +26,9 @@ as Snowflake does) and a nested BEGIN is ignored, so no transaction is ever abor
 **Layer B – `World`** : `FakeSnow.connect()` hands every fake connection its own engine connection
 (`instance.py:83` `self.duck_conn.cursor()`), `conn.cursor()` hands every fake cursor its connection's
 engine connection (`conn.py:124-126`), `conn.commit()/rollback()` execute COMMIT/ROLLBACK on a new,
-throw-away cursor of that connection (`conn.py:121-122,146-147`; the cursor is not reachable afterwards and is not given an id).  `World.step shared := true` is the mutant that hands out the
-instance's single connection.
+throw-away cursor of that connection (`conn.py:121-122,146-147`; the cursor is not reachable afterwards and is not given an id).  `World.step shared := true` is the mutant that hands the
+instance's single (root) connection to every connection opened WITHOUT a database/schema argument (`Ev.connect false`);
+with all connections opened that way it is the mutant that shares one engine connection among all.
 -/
 namespace Fs.Tx
 
@@ -198,7 +199,8 @@ def findingKey (s : Sys) (c : Nat) (st : Stmt) : String :=
 /-! ## Layer B: fake connections and cursors -/
 
 inductive Ev
-  | connect                          -- FakeSnow.connect(): a new fake connection
+  | connect (named : Bool)           -- FakeSnow.connect(): a new fake connection, opened with (`named`) or without a
+                                     -- database/schema argument – every connection gets its own engine connection either way
   | cursor (c : Nat)                 -- conn.cursor() on fake connection c
   | exec (k : Nat) (st : Stmt)       -- cursor k executes st
   | connCommit (c : Nat)             -- conn.commit()
@@ -222,8 +224,8 @@ def World.init (com : Store) : World := { sys := Sys.init com, conns := [], curs
 
 /-- `none` = the event is bookkeeping only (connect, cursor creation, unknown id): no statement runs -/
 def World.step (shared : Bool) (m : Mode) (w : World) : Ev → World × Option Obs
-  | .connect =>
-    if shared then ({ w with conns := w.conns ++ [sharedId] }, none)
+  | .connect named =>
+    if shared && !named then ({ w with conns := w.conns ++ [sharedId] }, none)
     else ({ w with conns := w.conns ++ [w.next], next := w.next + 1 }, none)
   | .cursor c =>
     match w.conns[c]? with
@@ -256,7 +258,7 @@ structure Book where
   cursConn : List Nat     -- fake connection of cursor k
 
 def Book.step (b : Book) : Ev → Book × Option (Nat × Stmt)
-  | .connect => ({ b with nconns := b.nconns + 1 }, none)
+  | .connect _ => ({ b with nconns := b.nconns + 1 }, none)
   | .cursor c => if c < b.nconns then ({ b with cursConn := b.cursConn ++ [c] }, none) else (b, none)
   | .exec k st => (b, b.cursConn[k]?.map fun c => (c, st))
   | .connCommit c => if c < b.nconns then (b, some (c, .commit)) else (b, none)
